@@ -104,6 +104,7 @@ def event_tla(ev):
     elif e == "q_release":
         f += [("released", _ids_seq(ev["released"])),
               ("queues_before", tla_fn({q: _Raw(_ids_seq(v)) for q, v in ev["queues_before"].items()})),
+              ("queues_after", tla_fn({q: _Raw(_ids_seq(v)) for q, v in ev.get("queues_after", ev["queues_before"]).items()})),
               ("limits", tla_fn(ev["limits"])),
               ("members", tla_fn({q: set(v) for q, v in ev["members"].items()})),
               ("held", _ids_set(ev["held"])),
